@@ -150,13 +150,83 @@ Definition run_sync (reqs : list (list nat)) (script : list (sstep nat)) : sexp 
   let fuel := S (S (length src)) in
   L (snd (run_sync_reqs fuel reqs (cache_new src (length reqs)) 0)).
 
+(* ---- handle level: one scheduled step = `step` of the LTS (one poll_next of a named handle / SourceReady),
+        one history entry = `cache_step` (one next() of a named CacheIter)
+   case: (c17 hasync K () (r|p ...) (c|f ...))      (c17 hsync K () (r ...) (i ...))                  *)
+Definition hcounters (s : astate nat) : list sexp :=
+  [snat (n_polls s); snat (n_some s + n_none s); snat (n_some s); snat (length (items s))].
+
+Definition enc_poll (p : poll (option nat)) : sexp :=
+  match p with
+  | Pending => sym "pending"
+  | Ready o => L [sym "ready"; sopt snat o]
+  end.
+
+Definition hstep_run (s : astate nat) (a : xstep) : astate nat * sexp :=
+  match a with
+  | XFire =>
+      let s' := source_ready s in
+      (s', L ([sym "fire"; L (newly (woken_flags (cons s)) (woken_flags (cons s')) 0)] ++ hcounters s'))
+  | XPoll c =>
+      let s0 := clear_woken c s in
+      let '(s', p) := poll_next s0 c in
+      (s', L ([sym "poll"; enc_poll p; L (newly (woken_flags (cons s0)) (woken_flags (cons s')) 0)] ++ hcounters s'))
+  end.
+
+Fixpoint hrun (s : astate nat) (l : list xstep) : astate nat * list sexp :=
+  match l with
+  | [] => (s, [])
+  | a :: r => let '(s1, o) := hstep_run s a in let '(s2, os) := hrun s1 r in (s2, o :: os)
+  end.
+
+(* the fair scheduler of Cache.v (`pick`), stopping when nothing is enabled *)
+Fixpoint hdrain (n : nat) (s : astate nat) : astate nat * list sexp :=
+  match n with
+  | O => (s, [sym "DRAIN-OVERFLOW"])
+  | S n' =>
+      match find_idx runnable (cons s) 0 with
+      | Some c =>
+          let '(s1, o) := hstep_run s (XPoll c) in
+          let '(s2, os) := hdrain n' s1 in (s2, L [snat c; o] :: os)
+      | None =>
+          match waiting s with
+          | Some _ =>
+              let '(s1, o) := hstep_run s XFire in
+              let '(s2, os) := hdrain n' s1 in (s2, L [sym "f"; o] :: os)
+          | None => (s, [])
+          end
+      end
+  end.
+
+Definition enc_handle (k : consumer nat) : sexp := L [sym (if fin k then "fin" else "open"); slist snat (seen k)].
+
+Definition run_hasync (k : nat) (script : list (sstep nat)) (sched : list xstep) : sexp :=
+  let '(s1, outs) := hrun (init script k) sched in
+  let '(s2, douts) := hdrain 2000 s1 in
+  L [L outs; L douts; slist enc_handle (cons s2)].
+
+Fixpoint hsync_run (c : cache nat) (h : list nat) : cache nat * list sexp :=
+  match h with
+  | [] => (c, [])
+  | i :: r =>
+      let '(c1, res) := cache_iter_next c i in
+      let o := L [sym "next"; sopt snat res; snat (c_calls c1); snat (length (c_items c1))] in
+      let '(c2, os) := hsync_run c1 r in (c2, o :: os)
+  end.
+
+Definition run_hsync (k : nat) (script : list (sstep nat)) (h : list nat) : sexp :=
+  let '(c1, outs) := hsync_run (cache_new (src_items script) k) h in
+  L [L outs; slist (fun k => slist snat (seen k)) (c_cons c1)].
+
 Definition run_case (c : sexp) : sexp :=
   match c with
-  | L [_; mode; _; L consumers; L script; L sched] =>
+  | L [_; mode; via; L consumers; L script; L sched] =>
       let reqs := map dec_consumer consumers in
       let scr := dec_script script 0 in
       if is_sym "async" mode then run_async reqs scr (map dec_step sched)
       else if is_sym "sync" mode then run_sync reqs scr
+      else if is_sym "hasync" mode then run_hasync (dec_nat via) scr (map dec_step sched)
+      else if is_sym "hsync" mode then run_hsync (dec_nat via) scr (map dec_nat sched)
       else bad
   | _ => bad
   end.
